@@ -1,6 +1,7 @@
 import build
 CONFIG = dict(
     level="exploration",
+    gen="none",
     cflags=build.PLAIN_CFLAGS,
     programs=[("Sim4", "default", 3000, 5, 100000, 6), ("Sim1", "default", 2000, 5, 60000, 5), ("Sim2", "default", 1500, 2, 40000, 3),
               ("Sim3", "default", 800, 1, 20000, 1)],
